@@ -38,6 +38,8 @@ func C20(ctx *core.Ctx) {
 	ctx.Rule("C20.R5", "Stop sends a fresh reply channel on quit and returns what it receives on it", 2)
 	ctx.Rule("C20.R6", "a request accepted before Stop is answered with its own reply: the worker encodes every reply into a buffer allocated for that message", 2)
 	perMessageTransports(ctx, r, "C20.R6")
+	ctx.Rule("C20.R7", "every request received before Stop is processed exactly once: one call site per serving function reaches FProcessor.Process (no retry around the step that processes and publishes)", 3)
+	processOnce(ctx, r, "C20.R7")
 	ctx.Assume("(*nats.Subscription).Drain stops new deliveries and lets pending ones finish; (*nats.Conn).Flush round-trips to the broker; (*nats.Conn).Barrier runs its callback after all previously dispatched subscription callbacks returned")
 
 	serve := r.Fn("C20.R1", "(*fNatsServer).Serve")
